@@ -15,14 +15,24 @@ par clang++ -std=c++17 -c -O0 $DEF -I$REPO -I$MC -I$H $H/c06_dispatch.cpp -o $BU
 par clang++ -std=c++17 -O2 -c -I$MC $MC/mc.cpp -o $BUILD/mc.o
 # re-entrancy run: the engine and its libc entry points under ThreadSanitizer, two threads on the controlled
 # scheduler (sched.cpp and mc.cpp stay uninstrumented: TSan then sees only what the code under test does)
-TF="-O1 -g -fsanitize=thread -fno-omit-frame-pointer -I$REPO -I$MC"
+TF="-O1 -g -DNDEBUG -fsanitize=thread -fno-omit-frame-pointer -I$REPO -I$MC" # the TSan build is also the release (NDEBUG) build
 par gcc -c $TF $REPO/igris/util/printf_impl.c -o $BUILD/printf_impl_tsan.o
 par gcc -c $TF -fno-builtin -Wno-implicit-function-declaration $REPO/compat/libc/stdio/sprintf.c -o $BUILD/sprintf_tsan.o
 par gcc -c $TF -fno-builtin -Wno-implicit-function-declaration $REPO/compat/libc/stdio/fdprintf.c -o $BUILD/fdprintf_tsan.o
 par g++ -std=c++17 -c $TF -DREENT_ID='"C06"' $H/c06_reentrancy.cpp -o $BUILD/h_tsan.o
 par g++ -std=c++17 -O2 -g -I$MC -c $MC/sched/sched.cpp -o $BUILD/sched.o
 par g++ -std=c++17 -O2 -c -I$MC $MC/mc.cpp -o $BUILD/mc_gcc.o
+# build-mode variant of the repository sources: the other compiler at -O2, release mode (-DNDEBUG: an assert that carries
+# a side effect vanishes) and plain char unsigned (-funsigned-char: ARM / PowerPC / RISC-V). No sanitizer; the harness
+# objects are shared with the main build (they include only printf_impl.h, which has no char-dependent declaration).
+VF="-O2 -g -DNDEBUG -funsigned-char -I$REPO"
+par gcc -c $VF $REPO/igris/util/printf_impl.c -o $BUILD/printf_impl_var.o
+par gcc -c $VF -fno-builtin -Wno-implicit-function-declaration $REPO/compat/libc/stdio/sprintf.c -o $BUILD/sprintf_var.o
+par gcc -c $VF -fno-builtin -Wno-implicit-function-declaration $REPO/compat/libc/stdio/fdprintf.c -o $BUILD/fdprintf_var.o
 parwait
+objcopy --redefine-sym sprintf=igc_sprintf --redefine-sym vsprintf=igc_vsprintf --redefine-sym snprintf=igc_snprintf $BUILD/sprintf_var.o
+objcopy --redefine-sym fdprintf=igc_fdprintf --redefine-sym vfdprintf=igc_vfdprintf --redefine-sym fdputc=igc_fdputc $BUILD/fdprintf_var.o
+clang++ $BUILD/h.o $BUILD/d.o $BUILD/printf_impl_var.o $BUILD/sprintf_var.o $BUILD/fdprintf_var.o $BUILD/mc.o -ldl -o $BUILD/c06_variant
 objcopy --redefine-sym sprintf=igc_sprintf --redefine-sym vsprintf=igc_vsprintf --redefine-sym snprintf=igc_snprintf $BUILD/sprintf_tsan.o
 objcopy --redefine-sym fdprintf=igc_fdprintf --redefine-sym vfdprintf=igc_vfdprintf --redefine-sym fdputc=igc_fdputc $BUILD/fdprintf_tsan.o
 g++ -fsanitize=thread $BUILD/h_tsan.o $BUILD/printf_impl_tsan.o $BUILD/sprintf_tsan.o $BUILD/fdprintf_tsan.o $BUILD/sched.o $BUILD/mc_gcc.o -lm -ldl -lpthread -o $BUILD/c06_tsan
@@ -31,3 +41,4 @@ objcopy --redefine-sym fdprintf=igc_fdprintf --redefine-sym vfdprintf=igc_vfdpri
 clang++ $SAN $BUILD/h.o $BUILD/d.o $BUILD/printf_impl.o $BUILD/sprintf.o $BUILD/fdprintf.o $BUILD/mc.o -o $BUILD/c06
 echo "printf $BUILD/c06" > $BUILD/runs.txt
 echo "reentrancy $BUILD/c06_tsan" >> $BUILD/runs.txt
+echo "ndebug_unsigned_char_gcc_O2 $BUILD/c06_variant --only integers,flag_sequences,chars,strings_guard_page,pointers,mixed_formats,libc_entries" >> $BUILD/runs.txt
